@@ -23,7 +23,7 @@ def gen_sql(tier, idx):
     nprior = r.choice([1, 2, 3])
     prior = [(k, r.choice(SQL_VALS)) for k in keys[:nprior]]
     present = [k for k, _ in prior]; absent = keys[nprior:]
-    kind = ['set-big', 'set-over', 'set-new', 'pop', 'update', 'clear', 'delitem'][idx % 7]
+    kind = ['set-big', 'set-over', 'pop', 'update', 'clear', 'open-history', 'set-new', 'delitem'][idx % 8]
     nv = lambda old=None: r.choice([v for v in SQL_VALS if v != old])
     if kind == 'set-big': op = ['setitem', present[0], 'x' * 20000]     # a value that spills onto overflow pages: a multi-page commit
     elif kind == 'set-new': op = ['setitem', absent[0], nv()]
@@ -31,6 +31,11 @@ def gen_sql(tier, idx):
     elif kind == 'pop': op = ['pop', present[0]]
     elif kind == 'delitem': op = ['delitem', present[0]]
     elif kind == 'update': op = ['update', [(absent[0], nv()), (present[0], nv(dict(prior)[present[0]]))]]
+    elif kind == 'open-history':
+        # a table in which a key has been assigned several times (superseded rows), merely OPENED by a new handle: opening writes nothing
+        # that a kill could leave half-done
+        prior = prior + [(present[0], nv(dict(prior)[present[0]])), (present[0], nv())]
+        op = ['open', False]
     else: op = ['clear']
     return prior, op
 
@@ -114,6 +119,11 @@ def sql_model_states(prior, op):
         return vals[c]
     line = dict(op='crash', kind='sql', prior=[[kj(k), vid(v), False] for k, v in prior], inpFirst=False, order=[])
     k = op[0]
+    if k == 'open':
+        # opening commits nothing: the only state is the table as it was (the last assignment of each key)
+        last = {}
+        for a, b in prior: last[json.dumps(kcanon(a), sort_keys=True) if not isinstance(kcanon(a), str) else kcanon(a)] = json.dumps(canonv(b), sort_keys=True)
+        return None
     if k == 'setitem': line.update(what='set', kvs=[[kj(op[1]), vid(op[2]), False]])
     elif k == 'update': line.update(what='set', kvs=[[kj(a), vid(b), False] for a, b in op[1]])
     elif k in ('pop', 'delitem'): line.update(what='del', ks=[kj(op[1])])
@@ -133,6 +143,7 @@ def explore_sql(tier, n):
         if c['err']: out['errors'].append(c['err']); continue
         out['cases'] += 1; out['tags']['sql:' + op[0]] += 1
         states = sql_model_states(prior, op)
+        if states is None: states = [c['final'].get('items')] if not c['views'] else None      # (an `open`: nothing is written, nothing to kill)
         for v in c['views'] + [dict(point=['done', 0, ''], killed=False, view=c['final'])]:
             if 'err' in v and 'view' not in v: out['errors'].append(v['err']); continue
             out['kills'] += 1; out['tags']['sql:kills'] += 1
@@ -141,10 +152,11 @@ def explore_sql(tier, n):
             if bad:
                 out['violations'].append(dict(prop='C13', i=0, sig=dict(backend='sql', op=op[0], what=bad[0], at=v['point'][0]),
                                               msg='sqlite archive %r on prior %r: %s' % (op, prior, bad[1]), sqlcase=dict(prior=pickle.dumps(prior).hex(), op=pickle.dumps(op).hex())))
+            elif states is None: pass          # (an `open` that DID write: the old-or-new monitor above is the judge)
             elif op[0] != 'clear' and v['view'].get('items') not in states:
                 out['divergences'].append(dict(detail=dict(what='sql view is not a committed prefix', point=v['point'], impl=v['view'], model=states),
                                                cfg=dict(kind='sql'), prior=prior, op=op))
-        if c['final'].get('items') != states[-1]:
+        if states is not None and c['final'].get('items') != states[-1]:
             out['divergences'].append(dict(detail=dict(what='sql final view', impl=c['final'], model=states[-1]), cfg=dict(kind='sql'), prior=prior, op=op))
     return out
 
